@@ -26,6 +26,17 @@ func (d *driver) runOtherFamily(fam, in string, sh *shards) bool {
 			d.runTranscriptProgram(sh.at(shard), k, line)
 		})
 		return true
+	case "msm":
+		getConf()
+		rr := &roundRobin{sh: sh}
+		forEachLine(in, 1, func(shard, k int, line []byte) {
+			var c msmCase
+			if err := json.Unmarshal(line, &c); err != nil {
+				panic(err)
+			}
+			d.runMsmCase(rr, k, &c)
+		})
+		return true
 	case "commit":
 		cfg := getConf()
 		for _, tw := range sh.ws {
